@@ -388,17 +388,13 @@ def minimize_lbfgsb(
 
     # potential update of stop criterion
     if ftarget is not None:
-        try:
-            _ftarget: Optional[float] = ftarget()  # type: ignore
-        except TypeError:
-            _ftarget = ftarget  # type: ignore
+        # no try/except TypeError here: it would swallow a TypeError raised inside
+        # the user's callable
+        _ftarget: Optional[float] = ftarget() if callable(ftarget) else ftarget
     else:
         _ftarget = None
 
-    try:
-        _gtol: float = gtol()  # type: ignore
-    except TypeError:
-        _gtol = gtol  # type: ignore
+    _gtol: float = gtol() if callable(gtol) else gtol
 
     # Create an internal state instance
     istate = InternalState()
